@@ -82,6 +82,20 @@ def call_np(interp, name, args, kwargs, lineno):
             by = _to_bool01(y)
             return bx * by if name == 'logical_and' else 1 - (1 - bx) * (1 - by)
         return Box(A.elementwise(ctx, g, [args[0], args[1]], kind='bool', origin=lineno))
+    if name == 'where':
+        if len(args) != 3:
+            raise AnalysisError("np.where with one argument")
+
+        def wh(c, x, y):
+            c = _to_bool01(c)
+            if c.is_const():
+                return x if c.const_value() != 0 else y
+            return c * x + (1 - c) * y
+        if all(isinstance(a, (Rat, bool)) for a in args):
+            return wh(*[R(a) if not isinstance(a, bool) else Rat.const(int(a)) for a in args])
+        return Box(A.elementwise(ctx, wh, list(args), origin=lineno))
+    if name == 'errstate':
+        return None
     if name == 'arange':
         if len(args) == 1:
             return Box(A.arange_arr(ZERO, R(args[0])))
